@@ -110,7 +110,10 @@ def matcher_loop():
         raise Refuse("sort call")
     if "mm_values = pool.starmap(matching_metric.value, instance_pairs)" not in src:
         raise Refuse("starmap call")
-    if "instance_pairs = [(reference_arr, prediction_arr, i[0], i[1]) for i in _calc_overlapping_labels(prediction_arr=prediction_arr, reference_arr=reference_arr, ref_labels=ref_labels)]" not in src:
+    call_ = "_calc_overlapping_labels(prediction_arr=prediction_arr, reference_arr=reference_arr, ref_labels=ref_labels)"
+    # one scoring task per overlapping pair, (reference label, prediction label) in this order (either spelling of the unpacking)
+    if f"instance_pairs = [(reference_arr, prediction_arr, i[0], i[1]) for i in {call_}]" not in src \
+            and f"instance_pairs = [(reference_arr, prediction_arr, ref_label, pred_label) for ref_label, pred_label in {call_}]" not in src:
         raise Refuse("instance_pairs")
     # the scores are paired with the labels of the SAME candidate, in candidate order (either spelling)
     if "mm_pairs = [(i, (instance_pairs[idx][2], instance_pairs[idx][3])) for idx, i in enumerate(mm_values)]" not in src \
